@@ -28,6 +28,7 @@ type Binder struct {
 }
 
 type Clause struct {
+	Like   string  // assigns like <contract>(args): name of the contract whose footprint is meant
 	Cond   *Clause // ghost updates: optional `when` condition
 	Target *Clause // ghost updates: the ghost variable (as an expression clause)
 	Kind   string // requires ensures invariant assigns decreases
@@ -438,7 +439,17 @@ func parseContractFile(path, pkgPath string) (*PkgContracts, error) {
 		case "ensures":
 			cur.Ensures = append(cur.Ensures, mkClause("ensures"))
 		case "assigns":
-			cur.Assigns = append(cur.Assigns, mkClause("assigns"))
+			cl := mkClause("assigns")
+			if strings.HasPrefix(cl.Text, "like ") {
+				// assigns like <contract>(args): the footprint of another contract, instantiated
+				m := regexp.MustCompile(`^like\s+([A-Za-z_][A-Za-z_0-9./$*()]*?)\((.*)\)$`).FindStringSubmatch(cl.Text)
+				if m == nil {
+					return nil, fmt.Errorf("%s:%d: bad `assigns like`", path, l.line)
+				}
+				cl.Like = m[1]
+				cl.Text = m[2]
+			}
+			cur.Assigns = append(cur.Assigns, cl)
 		case "decreases":
 			c := mkClause("decreases")
 			if curLoop != nil {
@@ -838,6 +849,7 @@ func callarg[T any](k, i int) (r T) { return }
 func callres[T any](k, i int) (r T) { return }
 func typeid[T any]() int { return 0 }
 func freshid(i int) bool { return true }
+func allocmark() int { return 0 }
 func allocatedid(i int) bool { return true }
 func maps[T any]() interface{} { return nil }
 func fields[T any]() interface{} { return nil }
